@@ -29,10 +29,7 @@ Qed.
 
 (* ---------- C07: all HTLCs held for the hash get the identical response, in the same step, and the entry is gone ---------- *)
 Definition held (c : cfg) (s : sys) (ev : event) : list htlc :=
-  match ev with
-  | EvHtlc h => h :: match entry_ (pl s) with Some e => listeners e | None => [] end
-  | _ => match entry_ (pl s) with Some e => listeners e | None => [] end
-  end.
+  match entry_ (pl s) with Some e => listeners e | None => [] end.
 
 Lemma fire_timers_resps : forall l e t l' e' o',
   fire_timers l e t = (l', e', o') ->
@@ -57,30 +54,16 @@ Theorem step_same_resolution c s ev :
   resps (snd (step c s ev)) = [] \/
   exists r, resps (snd (step c s ev)) = map (fun h => OResp (hid h) r) (held c s ev) /\ entry_ (pl (fst (step c s ev))) = None.
 Proof.
-  destruct ev; cbn [step held]; try (left; reflexivity).
-  - (* EvHtlc *)
-    destruct (entry_ (pl s)) as [e|] eqn:He.
-    + destruct (find_select 0 (lcs (pl s))) as [[[i d] li]|] eqn:Hf; [|left; reflexivity].
-      match goal with |- context [apply_adv ?s1 ?i ?a] =>
-        pose proof (apply_adv_resps s1 i a) as HR; pose proof (select_poll_answers c li (length (calls s)) (height s) (now s) d (Some (e_handle c e h)) true (next_att (pl s))) as HA;
-        destruct (find_select_spec _ _ _ _ _ Hf) as (x & Hx & _); rewrite Nat.sub_0_r in Hx;
-        destruct (apply_adv_lcs s1 i a x Hx) as (_ & Hen & _);
-        destruct (apply_adv s1 i a) as [s2 o2] end.
-      cbn [fst snd app] in *. rewrite HR.
-      destruct HA as [HA|(en & r & E1 & E2 & E3)]; [left; exact HA|right].
-      exists r. inversion E1; subst en. rewrite E3. destruct (e_handle_ident c e h) as (_ & _ & _ & ->). split; [reflexivity|]. rewrite Hen. exact E2.
-    + assert (Hfs : forall l n, n_att l = 0%nat -> find_select n (l ++ [{| l_pc := PFetch (length (calls s)); l_info := {| li_blob := blob h; li_deliver := deliver h; li_inv_amount := inv_amount h |} |}]) = None).
-      { induction l as [|z r IH]; intros n Hn; cbn in *; [reflexivity|]. destruct (l_pc z); cbn in Hn; try lia; apply IH; lia. }
-      destruct (find_select 0 _) as [[[i d] li]|] eqn:Hf; [|left; reflexivity].
-      (* a lifecycle in select! while there is no entry: its queues cannot fire, nothing is answered *)
-      match goal with |- context [apply_adv ?s1 ?i ?a] =>
-        pose proof (apply_adv_resps s1 i a) as HR; pose proof (select_poll_answers c li (length (calls s ++ mk_calls [QListState])) (height s) (now s) d (Some (e_handle c (new_entry h) h)) true (next_att (pl s))) as HA;
-        destruct (find_select_spec _ _ _ _ _ Hf) as (x & Hx & _); rewrite Nat.sub_0_r in Hx;
-        destruct (apply_adv_lcs s1 i a x Hx) as (_ & Hen & _);
-        destruct (apply_adv s1 i a) as [s2 o2] end.
-      cbn [fst snd app] in *. change (resps (OCall (length (calls s)) QListState :: o2)) with (resps o2). rewrite HR.
-      destruct HA as [HA|(en & r & E1 & E2 & E3)]; [left; exact HA|right].
-      exists r. inversion E1; subst en. rewrite E3. destruct (e_handle_ident c (new_entry h) h) as (_ & _ & _ & ->). split; [reflexivity|]. rewrite Hen. exact E2.
+  destruct ev; cbn [step]; unfold held; try (left; reflexivity).
+  - (* EvHtlc: the HTLC joins the entry; nobody is answered by this segment *)
+    destruct (entry_ (pl s)); left; reflexivity.
+  - (* EvPoll *)
+    destruct (find_select 0 (lcs (pl s))) as [[[i d] li]|] eqn:Hf; [|left; reflexivity].
+    destruct (find_select_spec _ _ _ _ _ Hf) as (x & Hx & _). rewrite Nat.sub_0_r in Hx.
+    rewrite apply_adv_resps.
+    destruct (select_poll_answers c li (length (calls s)) (height s) (now s) d (entry_ (pl s)) sel (next_att (pl s))) as [HA|(en & r & E1 & E2 & E3)]; [left; exact HA|right].
+    exists r. rewrite E3. split; [rewrite E1; reflexivity|].
+    destruct (apply_adv_lcs s i (select_poll c li (length (calls s)) (height s) (now s) d (entry_ (pl s)) sel (next_att (pl s))) x Hx) as (_ & Hen & _). rewrite Hen. exact E2.
   - (* EvProcess *)
     destruct (nth_error (calls s) cid) as [cl|]; [|left; reflexivity]. destruct (c_st cl); try (left; reflexivity).
     destruct (node_exec (nd s) (c_rpc cl) f). left; reflexivity.
@@ -99,6 +82,29 @@ Proof.
     destruct (fire_timers (lcs (pl s)) (entry_ (pl s)) (now s + dt)) as [[l' e'] o'] eqn:Hf. cbn [fst snd].
     destruct (fire_timers_resps _ _ _ _ _ _ Hf) as [H|(en & E1 & E2 & E3)]; [left; exact H|right].
     exists r_tramp_fail. rewrite E1, E3. cbn. auto.
+Qed.
+
+(* the same at the granularity of the correspondence check: the arriving HTLC is among the ones answered together *)
+Lemma e_handle_listeners' c e h : listeners (e_handle c e h) = h :: listeners e.
+Proof.
+  unfold e_handle, e_add. cbn [listeners].
+  assert (F : forall x r, listeners (e_fail x r) = listeners x) by (intros x r; unfold e_fail; destruct (is_fail x); reflexivity).
+  repeat match goal with |- context [if ?b then _ else _] => destruct b end; rewrite ?F; reflexivity.
+Qed.
+
+Theorem step_htlc_same_resolution c s h sel :
+  resps (snd (step_htlc c s h sel)) = [] \/
+  exists r, resps (snd (step_htlc c s h sel)) = map (fun x => OResp (hid x) r) (h :: held c s (EvHtlc h)) /\ entry_ (pl (fst (step_htlc c s h sel))) = None.
+Proof.
+  unfold step_htlc.
+  assert (R1 : resps (snd (step c s (EvHtlc h))) = []) by (cbn [step]; destruct (entry_ (pl s)); reflexivity).
+  assert (L1 : held c (fst (step c s (EvHtlc h))) (EvPoll sel) = h :: held c s (EvHtlc h)).
+  { unfold held. cbn [step]. destruct (entry_ (pl s)); cbn [fst pl entry_]; rewrite e_handle_listeners'; reflexivity. }
+  destruct (step c s (EvHtlc h)) as [s1 o1]. cbn [fst snd] in *.
+  pose proof (step_same_resolution c s1 (EvPoll sel)) as H2.
+  destruct (step c s1 (EvPoll sel)) as [s2 o2]. cbn [fst snd] in *.
+  rewrite resps_app, R1. cbn [app].
+  destruct H2 as [H2|(r & H2 & H3)]; [left; exact H2|right]. exists r. rewrite <- L1. auto.
 Qed.
 
 (* ---------- which transitions issue which RPCs ---------- *)
@@ -268,17 +274,12 @@ Theorem pay_request_facts c s ev cid b am mf md rt :
     resps (snd (step c s ev)) = [].
 Proof.
   intros HU HE Hin. destruct ev; cbn [step] in *; try (destruct Hin; fail).
-  - (* EvHtlc: only a state fetch or the in-flight marker can be issued *)
-    exfalso. destruct (entry_ (pl s)) as [e|] eqn:He.
-    + destruct (find_select 0 (lcs (pl s))) as [[[i d] li]|] eqn:Hf; [|destruct Hin].
-      match type of Hin with context [apply_adv ?s1 ?i ?a] => pose proof (apply_adv_calls s1 i a cid (QPay b am mf md rt)) as HC; destruct (apply_adv s1 i a) as [s2 o2] end.
-      cbn [fst snd app] in *. destruct (HC Hin) as [H|H]; [exact (select_poll_out_no_call _ _ _ _ _ _ _ _ _ _ _ H)|].
-      destruct (select_poll_new _ _ _ _ _ _ _ _ _ _ H) as (? & ? & _ & _ & _ & _ & X). discriminate.
-    + destruct (find_select 0 _) as [[[i d] li]|] eqn:Hf; [|destruct Hin as [Hin|[]]; discriminate].
-      match type of Hin with context [apply_adv ?s1 ?i ?a] => pose proof (apply_adv_calls s1 i a cid (QPay b am mf md rt)) as HC; destruct (apply_adv s1 i a) as [s2 o2] end.
-      cbn [fst snd app] in *. destruct Hin as [Hin|Hin]; [discriminate|].
-      destruct (HC Hin) as [H|H]; [exact (select_poll_out_no_call _ _ _ _ _ _ _ _ _ _ _ H)|].
-      destruct (select_poll_new _ _ _ _ _ _ _ _ _ _ H) as (? & ? & _ & _ & _ & _ & X). discriminate.
+  - (* EvHtlc: only a state fetch can be issued *)
+    exfalso. destruct (entry_ (pl s)) as [e|] eqn:He; [destruct Hin|destruct Hin as [Hin|[]]; discriminate].
+  - (* EvPoll: only the in-flight marker can be issued *)
+    exfalso. destruct (find_select 0 (lcs (pl s))) as [[[i d] li]|] eqn:Hf; [|destruct Hin].
+    destruct (apply_adv_calls _ _ _ _ _ Hin) as [H|H]; [exact (select_poll_out_no_call _ _ _ _ _ _ _ _ _ _ _ H)|].
+    destruct (select_poll_new _ _ _ _ _ _ _ _ _ _ H) as (? & ? & _ & _ & _ & _ & X). discriminate.
   - destruct (nth_error (calls s) cid0) as [cl|]; [|destruct Hin]. destruct (c_st cl); try (destruct Hin; fail).
     destruct (node_exec (nd s) (c_rpc cl) f). destruct Hin.
   - (* EvDeliver *)
@@ -329,12 +330,8 @@ Proof.
 Qed.
 
 (* ---------- C04: the start of an attempt (the in-flight marker is issued) fixes the pay parameters ---------- *)
-(* the entry the lifecycle sees when it leaves the select!: for an arriving HTLC, the entry after it was added *)
-Definition entry_seen (c : cfg) (s : sys) (ev : event) : option entry :=
-  match ev with
-  | EvHtlc h => Some (e_handle c (match entry_ (pl s) with Some e => e | None => new_entry h end) h)
-  | _ => entry_ (pl s)
-  end.
+(* the entry the lifecycle sees when it leaves the select! *)
+Definition entry_seen (c : cfg) (s : sys) (ev : event) : option entry := entry_ (pl s).
 
 Theorem attempt_start_facts c s ev cid a t :
   InvU s -> InvE c s -> In (OCall cid (QWriteState CreateOrReplace None (DPending a t))) (snd (step c s ev)) ->
@@ -349,37 +346,28 @@ Theorem attempt_start_facts c s ev cid a t :
     recv en = N.min u64max (sum_amt (listeners en)) /\ minexp en = min_expiry (listeners en) /\
     fee_sufficient (pol c) (recv en) (e_deliver en) = true.
 Proof.
-  intros HU HE Hin. destruct ev; cbn [step entry_seen] in *; try (destruct Hin; fail).
+  intros HU HE Hin. unfold entry_seen. destruct ev; cbn [step] in *; try (destruct Hin; fail).
   - (* EvHtlc *)
-    destruct (entry_ (pl s)) as [e|] eqn:He.
-    + destruct (find_select 0 (lcs (pl s))) as [[[i d] li]|] eqn:Hf; [|destruct Hin].
-      destruct (find_select_spec _ _ _ _ _ Hf) as (x & Hx & Hp & Hli & _). rewrite Nat.sub_0_r in Hx. subst li.
-      assert (Ax : attached (l_pc x) = true) by (rewrite Hp; reflexivity).
-      pose proof (EInv_handle c e h (ie_entry c s HE e He)) as HE1.
-      destruct (e_handle_ident c e h) as (Hb & Hd & Hi & _).
-      assert (Hinfo : l_info x = info_of (e_handle c e h)).
-      { rewrite (proj1 (ie_lc c s HE e i x He Hx Ax)). unfold info_of. rewrite Hb, Hd, Hi. reflexivity. }
-      match type of Hin with context [apply_adv ?s1 ?i ?aa] =>
-        pose proof (apply_adv_calls s1 i aa cid (QWriteState CreateOrReplace None (DPending a t))) as HC;
-        destruct (apply_adv_lcs s1 i aa x Hx) as (Hl & Hen & _ & _ & _ & Hcalls & _);
-        pose proof (apply_adv_outs s1 i aa) as HO;
-        destruct (apply_adv s1 i aa) as [s2 o2] end.
-      cbn [fst snd app] in *. destruct (HC Hin) as [H|H]; [exfalso; exact (select_poll_out_no_call _ _ _ _ _ _ _ _ _ _ _ H)|].
-      destruct (select_poll_new _ _ _ _ _ _ _ _ _ _ H) as (en & fq & E1 & E2 & E3 & E4 & E5). inversion E1; subst en. inversion E5; subst a t.
-      assert (Hfq : forall r, fq = Some r -> is_fail (e_handle c e h) = true) by (intros r Hr; exact (ei_failq c _ HE1 r (E4 r Hr))).
-      destruct (go_pay_spec c (l_info x) (length (calls s)) (height s) (now s) (e_handle c e h) (next_att (pl s)) HE1 E2 Hinfo fq Hfq) as (G1 & G2 & G3 & G4 & G5).
-      rewrite E3 in *. exists (e_handle c e h), fq, i, (set_pc x (a_pc (go_pay c (l_info x) (length (calls s)) (height s) (now s) (Some (set_queues (e_handle c e h) false fq)) (next_att (pl s))))).
-      split; [reflexivity|]. split; [exact E2|]. split; [rewrite Hen; exact G1|].
-      split; [rewrite Hl; apply nth_error_upd_same; apply nth_error_Some; cbn [pl lcs]; rewrite Hx; discriminate|].
-      cbn [set_pc l_pc]. rewrite G2.
-      (* the call id is the position of the new call *)
-      assert (cid = length (calls s)).
-      { rewrite HO, G3, G4 in Hin. cbn in Hin. destruct Hin as [Hin|[]]. inversion Hin. reflexivity. }
-      subst cid. repeat split; auto; [exact (ei_recv c _ HE1)|exact (ei_minexp c _ HE1)|exact (ei_ready_funded c _ HE1 E2)].
-    + exfalso. unfold InvU in HU. rewrite He in HU.
-      assert (Hfs : forall l n, n_att l = 0%nat -> find_select n (l ++ [{| l_pc := PFetch (length (calls s)); l_info := {| li_blob := blob h; li_deliver := deliver h; li_inv_amount := inv_amount h |} |}]) = None).
-      { induction l as [|z r IH]; intros n Hn; cbn in *; [reflexivity|]. destruct (l_pc z); cbn in Hn; try lia; apply IH; lia. }
-      rewrite (Hfs _ 0%nat HU) in Hin. destruct Hin as [Hin|[]]. discriminate.
+    exfalso. destruct (entry_ (pl s)) as [e|] eqn:He; [destruct Hin|destruct Hin as [Hin|[]]; discriminate].
+  - (* EvPoll *)
+    destruct (find_select 0 (lcs (pl s))) as [[[i d] li]|] eqn:Hf; [|destruct Hin].
+    destruct (find_select_spec _ _ _ _ _ Hf) as (x & Hx & Hp & Hli & _). rewrite Nat.sub_0_r in Hx. subst li.
+    assert (Ax : attached (l_pc x) = true) by (rewrite Hp; reflexivity).
+    pose proof (apply_adv_outs s i (select_poll c (l_info x) (length (calls s)) (height s) (now s) d (entry_ (pl s)) sel (next_att (pl s)))) as HO.
+    destruct (apply_adv_lcs s i (select_poll c (l_info x) (length (calls s)) (height s) (now s) d (entry_ (pl s)) sel (next_att (pl s))) x Hx) as (Hl & Hen & _).
+    destruct (apply_adv_calls _ _ _ _ _ Hin) as [H|H]; [exfalso; exact (select_poll_out_no_call _ _ _ _ _ _ _ _ _ _ _ H)|].
+    destruct (select_poll_new _ _ _ _ _ _ _ _ _ _ H) as (en & fq & E1 & E2 & E3 & E4 & E5). inversion E5; subst a t.
+    pose proof (ie_entry c s HE en E1) as HE1.
+    destruct (ie_lc c s HE en i x E1 Hx Ax) as (Hinfo & _).
+    assert (Hfq : forall r, fq = Some r -> is_fail en = true) by (intros r Hr; exact (ei_failq c _ HE1 r (E4 r Hr))).
+    destruct (go_pay_spec c (l_info x) (length (calls s)) (height s) (now s) en (next_att (pl s)) HE1 E2 Hinfo fq Hfq) as (G1 & G2 & G3 & G4 & G5).
+    rewrite E3 in *. exists en, fq, i, (set_pc x (a_pc (go_pay c (l_info x) (length (calls s)) (height s) (now s) (Some (set_queues en false fq)) (next_att (pl s))))).
+    split; [exact E1|]. split; [exact E2|]. split; [rewrite Hen; exact G1|].
+    split; [rewrite Hl; apply nth_error_upd_same; apply nth_error_Some; rewrite Hx; discriminate|].
+    cbn [set_pc l_pc]. rewrite G2.
+    assert (cid = length (calls s)).
+    { rewrite HO, G3, G4 in Hin. cbn in Hin. destruct Hin as [Hin|[]]. inversion Hin. reflexivity. }
+    subst cid. repeat split; auto; [exact (ei_recv c _ HE1)|exact (ei_minexp c _ HE1)|exact (ei_ready_funded c _ HE1 E2)].
   - destruct (nth_error (calls s) cid0) as [cl|]; [|destruct Hin]. destruct (c_st cl); try (destruct Hin; fail).
     destruct (node_exec (nd s) (c_rpc cl) f). destruct Hin.
   - (* EvDeliver *)
